@@ -17,7 +17,7 @@ Inductive expr :=
 | ECall (f : name) (args : exprs)                       (* f(args) *)
 | ESel (x sel : name) (args : exprs)                    (* x.sel(args), x an identifier *)
 | EField (x f : name)                                   (* x.f *)
-| EFuncLit (ps : list name) (res : bool) (body : stmts) (* func(ps) [int] { body } *)
+| EFuncLit (ps : list name) (res : nat) (body : stmts)  (* func(ps) (res results) { body } *)
 | ELambda (ps : list name) (rhs : exprs)                (* XGo  ps => rhs *)
 | ELambda2 (ps : list name) (body : stmts)              (* XGo  ps => { body } *)
 | ENew (t : name) (e : expr)                            (* T{e} *)
@@ -81,12 +81,13 @@ Definition sel_action (c : fctx) (x sel : name) : option str * list name :=
        | None => (None, [])
        end.
 
-Definition res_count (res : bool) : nat := if res then 1 else 0.
+Definition res_count (res : nat) : nat := res.
 Fixpoint elen (es : exprs) : nat := match es with ENil => 0 | ECons _ t => S (elen t) end.
 
 (* funcLitToLambdaExpr: a body that is exactly `return e1..en` with n = the number of results > 0 becomes
-   an expression lambda (b2092a4: nres > 0, a bare `return` stays a block lambda) *)
-Definition lam_ok (res : bool) (rs : exprs) : bool := (res && Nat.eqb (elen rs) (res_count res))%bool.
+   an expression lambda (b2092a4: nres > 0, a bare `return` stays a block lambda; a single `return f(..)`
+   forwarding a multi-value call in a literal with n >= 2 results has 1 <> n expressions: block lambda) *)
+Definition lam_ok (res : nat) (rs : exprs) : bool := (negb (Nat.eqb res 0) && Nat.eqb (elen rs) (res_count res))%bool.
 
 Fixpoint tr_expr (c : fctx) (e : expr) {struct e} : expr * list name :=
   match e with
